@@ -31,6 +31,7 @@ RULE = (
 RULE += (" " + 'File paths have equal and different leaf directory names under different ancestors, nested and relative forms.')
 RULE += (" One document in five is a correlation rule drawing title, id and path from the same pools.")
 RULE += (" Glob sweep: every selector pattern over {a, b, _, *} up to length 4 (thorough: 6) against a rule defining every name over {a, b, _} up to length 4 (5): unused-detection and dangling-selector issues must agree with glob matching.")
+RULE += (" The validator object is used for a second run over the same rules: same issues again, and the issues of the first run unchanged.")
 ASSUMPTIONS = [
     "vf/ref/conditions.py defines which detections a condition refers to",
     "issues are compared as multisets (the order in which issues are reported is C20's subject)",
@@ -224,7 +225,17 @@ def check_case(case: dict) -> Outcome:
                 except Exception:  # noqa
                     pass
             before = _snapshot(rules0)
-        val.validate_rules(iter(rules0))
+        key0 = {id(r): i for i, r in enumerate(rules0)}
+        first = val.validate_rules(iter(rules0))
+        first_n = Counter(_norm_issue(i, key0) for i in first)
+        # the same validator object used for a second validation run over the same rules: the same issues again, and the
+        # issues returned by the first run are still what they were
+        second_n = Counter(_norm_issue(i, key0) for i in val.validate_rules(iter(rules0)))
+        if second_n != first_n:
+            diff = (second_n - first_n) + (first_n - second_n)
+            out.fail(f"C19:second-run-differs:{sorted({k[0] for k in diff})[0]}", f"validators {vnames}: a second validate_rules() with the same validator object over the same rules: {list(diff.items())[:3]}"[:900])
+        elif Counter(_norm_issue(i, key0) for i in first) != first_n:
+            out.fail("C19:returned-issues-changed-later", f"validators {vnames}: the issues of the first run changed during the second run")
         after = _snapshot(rules0)
         if before != after:
             bad = next(i for i in range(n) if before[i] != after[i])
